@@ -225,8 +225,11 @@ theorem radio_uri_connects_with_parsed_settings (env : Env) (cls : List Drv) (hm
 
 /-! ## open_link -/
 
-theorem gen_open_link : Gen.C20.openLinkBefore = ["self.connection_requested.call(link_uri)", "self.state = State.INITIALIZED",
-      "self.link_uri = link_uri"] ∧ Gen.C20.openLinkHandlerTypes = ["Exception"] ∧
+theorem gen_open_link : Gen.C20.openLinkBefore.take 3 = ["self.connection_requested.call(link_uri)", "self.state = State.INITIALIZED",
+      "self.link_uri = link_uri"] ∧
+    -- further statements before the `try` must be among these non-raising, event-free calls (D10's timer clean-up)
+    (Gen.C20.openLinkBefore.drop 3).all (· ∈ ["self._cancel_answer_timers()"]) = true ∧
+    Gen.C20.openLinkHandlerTypes = ["Exception"] ∧
     Gen.C20.openLinkAssign = "self.link = cflib.crtp.get_link_driver(link_uri, self.link_statistics.radio_link_statistics_callback, self._link_error_cb)" ∧
     Gen.C20.openLinkNoDriverTest = "not self.link" ∧
     Gen.C20.openLinkNoDriverCalls = ["self.connection_failed.call(link_uri, message)"] ∧
